@@ -7,7 +7,7 @@ def plan(tier):
     for t, tn in tools.items():
         for bs in (8, 16):
             lens = [0, 1, bs - 1, bs, bs + 1, 1023, 1024, 1025, 1024 + bs - 1, 1024 + bs, 2047, 2048, 2049, 2088]
-            if tier == 'quick': lens = [0, bs - 1, bs + 1, 1024, 1024 + bs, 2049] if t != 2 else [0, bs + 1, 1024 + bs]
+            if tier == 'quick': lens = [0, bs - 1, bs + 1, 1024 + bs] if t != 2 else [0, bs + 1, 1024 + bs]
             for L in lens:
               for ts in ((None,) if t != 2 else ((1, bs) if tier == 'quick' else (1, 2, 3, bs - 1, bs))):
                 qs.append(Q('main:%s:b%d:len%d%s' % (tn, bs * 8, L, '' if ts is None else ':t%d' % ts), 'c20.c',
